@@ -166,6 +166,8 @@ class Tr:
             return k(lit(float(n["value"])), "dbl")
         if kd == "CXXBoolLiteralExpr":
             return k("true" if n["value"] else "false", "bool")
+        if kd == "IntegerLiteral" and ctype(n) == "int":
+            return k("(%d)" % int(n["value"]), "int")
         if kd == "DeclRefExpr":
             name = n.get("referencedDecl", {}).get("name")
             if name in self.locals:
@@ -278,6 +280,9 @@ class Tr:
                         return "(if %s then\n%s\nelse\n%s)" % (t, k("true", "bool"), self.ex(ks[1], k))
                     return self.ex(ks[0], sc)
                 return self.seq(ks, lambda a: k("(%s %s %s)" % (a[0][0], op, a[1][0]), "bool"))
+            if ctype(ks[0]) == "int" and ctype(ks[1]) == "int" and op in ("==", "!=", "<", "<=", ">", ">="):
+                sym = {"==": "=", "!=": "≠", "<=": "≤", ">=": "≥"}.get(op, op)
+                return self.seq(ks, lambda a: k("(decide (%s %s %s))" % (a[0][0], sym, a[1][0]), "bool"))
             if ctype(ks[0]) != "dbl" or ctype(ks[1]) != "dbl":
                 raise Refuse("binary operator %s on %s, %s" % (op, qtype(ks[0]), qtype(ks[1])))
             if op in ARITH:
